@@ -174,3 +174,60 @@ if __name__ == "__main__":
         print(" case:", unhex_tokens(by_id[i])[:1500])
         print(" go  :", a[:1200])
         print(" lean:", b[:1200])
+
+
+# ---- conformance: Go versus Spec ------------------------------------------------------------------------
+
+SPEC_FIELDS = [FIDX[f] for f in ["href", "protocol", "username", "password", "host", "hostname", "port", "pathname", "search", "hash"]]
+SPEC_OPS = {"P", "PR", "R", "S"}
+
+
+def spec_eligible(line, default_cfg):
+    t = line.split(" ")
+    if len(t) < 3 or t[1] != "H":
+        return False
+    ops = " ".join(t[3:]).split(" ; ")
+    for op in ops:
+        o = op.split(" ")
+        if o[0] not in SPEC_OPS:
+            return False
+        if o[0] in ("P", "PR") and o[1] != default_cfg:
+            return False
+    return True
+
+
+def okerr(tok):
+    if tok.startswith("ok"):
+        return tok
+    if tok.startswith("E"):
+        return "E"
+    return tok
+
+
+def spec_compare(case_lines, go, tables, default_cfg):
+    """returns (evaluated, undecided, list of (id, op, go, spec))"""
+    el = [l for l in case_lines if spec_eligible(l, default_cfg)]
+    slines = []
+    for l in el:
+        t = l.split(" ")
+        t[1] = "SH"
+        t[2] = "+".join(tables.get(t[0], [])) or "-"
+        slines.append(" ".join(t))
+    res = run_model(slines)
+    undecided = 0
+    dev = []
+    for l in el:
+        i = l.split(" ", 1)[0]
+        s = res.get(i, "")
+        if s.startswith("SPECNEED"):
+            undecided += 1
+            continue
+        g = go[i]
+        sg = [(okerr(a), b) for a, b in states(g, SPEC_FIELDS)]
+        ss = [(okerr(a), b) for a, b in states(s, SPEC_FIELDS)]
+        if sg != ss:
+            k = 0
+            while k < min(len(sg), len(ss)) and sg[k] == ss[k]:
+                k += 1
+            dev.append((i, k, repr(sg[k]) if k < len(sg) else "<end>", repr(ss[k]) if k < len(ss) else "<end>"))
+    return len(el), undecided, dev
